@@ -56,7 +56,7 @@ static void case_dawson(Rng& rng, uint64_t index)
 	double f = Dawson_Integral(x), fm = Dawson_Integral(-x);
 	ld ref	 = dawson_ref(x);
 	judge("dawson-accurate-to-2e-7-absolutely", (double) fabsl((ld) f - ref), 2e-7, [&] { return J().d("Dawson_Integral", f).d("reference", (double) ref); });
-	require("dawson-is-odd", same_bits(fm, -f) || (f == 0 && fm == 0), [&] { return J().d("F(x)", f).d("F(-x)", fm); });
+	require("dawson-is-odd", near_ulps(fm, -f, 4) || (f == 0 && fm == 0), [&] { return J().d("F(x)", f).d("F(-x)", fm); });
 	// Erfi = 2/sqrt(pi) exp(x^2) F(x)
 	double e   = Erfi(x);
 	ld eref	   = 2 / sqrtl(acosl(-1.0L)) * expl((ld) x * x) * ref;
@@ -73,7 +73,7 @@ static void case_dawson(Rng& rng, uint64_t index)
 	else
 		count_outside("erfi-accurate-to-1e-6-relatively");	 // 26.6 < |x|, true value finite but exp(x^2) already overflows: not claimed
 	double em = Erfi(-x);
-	require("erfi-is-odd", same_bits(em, -e) || (e == 0 && em == 0), [&] { return J().d("Erfi(x)", e).d("Erfi(-x)", em); });
+	require("erfi-is-odd", near_ulps(em, -e, 4) || (e == 0 && em == 0), [&] { return J().d("Erfi(x)", e).d("Erfi(-x)", em); });
 	if(index % 4999 == 0)
 		sample(J().d("Dawson_Integral", f).d("reference", (double) ref));
 }
@@ -142,7 +142,7 @@ static void case_round(Rng& rng, uint64_t index)
 	set_params(J().d("x", x).i("digits", d));
 	hash_param(x), hash_param_u(d);
 	double r = Round(x, d), rm = Round(-x, d);
-	require("round-is-odd", same_bits(rm, -r) || (r == 0 && rm == 0), [&] { return J().d("Round(x)", r).d("Round(-x)", rm); });
+	require("round-is-odd", near_ulps(rm, -r, 4) || (r == 0 && rm == 0), [&] { return J().d("Round(x)", r).d("Round(-x)", rm); });
 	if(x == 0)
 	{
 		require("round-of-zero-is-zero", r == 0.0, [&] { return J().d("Round", r); });
@@ -217,8 +217,8 @@ static void case_simple(Rng& rng, uint64_t index)
 	double rd = Relative_Difference(a, b), rd2 = Relative_Difference(b, a);
 	double mx = std::max(std::fabs(a), std::fabs(b));
 	double ex = (mx == 0) ? 0.0 : std::fabs(a - b) / mx;
-	require("relative-difference-definition", same_bits(rd, ex), [&] { return J().d("Relative_Difference", rd).d("expected", ex); });
-	require("relative-difference-symmetric", same_bits(rd, rd2), [&] { return J().d("(a,b)", rd).d("(b,a)", rd2); });
+	require("relative-difference-definition", near_ulps(rd, ex, 4) || std::fabs(rd - ex) <= 4 * EPS, [&] { return J().d("Relative_Difference", rd).d("expected", ex); });
+	require("relative-difference-symmetric", near_ulps(rd, rd2, 4) || std::fabs(rd - rd2) <= 4 * EPS, [&] { return J().d("(a,b)", rd).d("(b,a)", rd2); });
 	require("relative-difference-of-equal-arguments-is-zero", Relative_Difference(a, a) == 0.0, [&] { return J().d("Relative_Difference(a,a)", Relative_Difference(a, a)); });
 	double tol = rng.coin() ? 1e-10 : rng.loguni(1e-15, 1e-1);
 	bool fe = Floats_Equal(a, b, tol), fe2 = Floats_Equal(b, a, tol);
